@@ -251,6 +251,15 @@ def check_effects(w):
                                 't%d download(%s) success but destination holds %r, object is %r'
                                 % (t['idx'], d, _short(got), _short(t['expect'])),
                                 {'variant': _dl_variant(w, t), 'dst': d})
+                elif d == 'path' and 'dest_at_result' in t and \
+                        t['dest_at_result'] != t['expect'] and not user_overrode(t):
+                    # ... at the moment the future reported it (a later writer
+                    # may have repaired the file since)
+                    w.violation('C02', 'content-differs',
+                                't%d download(path): when result() returned the destination '
+                                'held %r, object is %r'
+                                % (t['idx'], _short(t['dest_at_result']), _short(t['expect'])),
+                                {'variant': 'at-result', 'dst': d})
 
 
 def _dl_variant(w, t):
